@@ -37,8 +37,18 @@ func main() {
 	case "inline":
 		inlineCmd(os.Args[2:])
 	case "baseline-funcs":
-		for _, k := range mustLoad().DeclaredFuncKeys() {
+		P := mustLoad()
+		for _, k := range P.DeclaredFuncKeys() {
 			fmt.Println(k)
+		}
+		cc := P.DeclaredClosureCounts()
+		var ks []string
+		for k := range cc {
+			ks = append(ks, k)
+		}
+		sort.Strings(ks)
+		for _, k := range ks {
+			fmt.Printf("CLOSURES %s %d\n", k, cc[k])
 		}
 	case "range":
 		rangeCmd(os.Args[2:])
